@@ -95,6 +95,7 @@ def required_cells(tier):
            "outcome:silent-complete": 1,
            "variant:preexisting": 1, "variant:rank3": 1,
            "variant:transform": 1, "variant:unique": 1, "variant:direct": 1,
+           "remove_retries": 6,
            "writers_died_as_intended": 50,
            "matrix:write:existing": 3, "matrix:write:missing": 3,
            "matrix:overwrite:existing": 3, "matrix:overwrite:missing": 3,
@@ -988,6 +989,35 @@ def run_remove(case):
                             f"still there: {label}",
                     "mechanism": "remove-accepted-but-file-present",
                     "detail": det})
+            if entitled is False and refused and present1:
+                # the refusal is not a one-off: asking again (the first call
+                # has closed the handle) or closing and asking again must
+                # still leave the file alone
+                for again in ("remove() again", "close() then remove()"):
+                    exc2 = None
+                    try:
+                        if again.startswith("close"):
+                            obj.close()
+                        obj.remove()
+                    except Exception as e:  # pylint: disable=broad-except
+                        exc2 = e
+                    monitors["remove_retries"] = monitors.get(
+                        "remove_retries", 0) + 1
+                    if not os.path.exists(fname):
+                        violations.append({
+                            "what": f"{again} after a refused remove() "
+                                    f"deleted the file: {label}",
+                            "mechanism": "remove-deleted-protected-file",
+                            "detail": dict(det, retry=again,
+                                           exc2=repr(exc2))})
+                        break
+                    if exc2 is None:
+                        violations.append({
+                            "what": f"{again} after a refused remove() was "
+                                    f"not refused: {label}",
+                            "mechanism": "remove-not-refused",
+                            "detail": dict(det, retry=again)})
+                present1 = os.path.exists(fname)
             if present1:
                 if h0 is not None and _sha(fname) != h0:
                     violations.append({
